@@ -14,7 +14,7 @@ def replay_mask(n, mask):
     return bad, 'mask(%d digits) -> %r' % (n, out[:50]), 'C16/mask'
 
 
-def replay_processor(proc, bit, n, other, enc, hexbm=False, prior=None):
+def replay_processor(proc, bit, n, other, enc, hexbm=False, prior=None, content=None):
     from cardutil import iso8583
     from cardutil.config import config
     first = {'MTI': '1240', 'DE%d' % bit: '1234567890123456', 'DE3': '000000'}
@@ -26,6 +26,13 @@ def replay_processor(proc, bit, n, other, enc, hexbm=False, prior=None):
         iso8583.loads(iso8583.dumps(first, encoding=enc, iso_config=cfgs), encoding=enc, iso_config=cfgs)
     cfgs[str(bit)]['field_processor'] = proc
     v = _pan(n)
+    if content and len(content) == n:
+        # the witness text of the symbolic run (arbitrary characters, e.g. a field separator), when the codec can carry it
+        try:
+            content.encode(enc)
+            v = content
+        except UnicodeEncodeError:
+            pass
     msg = {'MTI': '1240', 'DE%d' % bit: v}
     if other:
         c = cfgs[str(other)]
